@@ -28,6 +28,11 @@ type RHist struct {
 	TK   string `json:"tk"`   // pid name alias event
 	Term string `json:"term"` // kill normal unregister
 	Ops  []ROp  `json:"ops"`
+	// alias targets: the owner creates NAlias aliases, the consumers watch the one at position Watch, and the owner deletes the one at
+	// position Del (another one, -1 = none) after the relations are in place - the watched alias is still owed its notices
+	NAlias int `json:"nalias"`
+	Watch  int `json:"watch"`
+	Del    int `json:"del"`
 }
 
 type RFile struct {
@@ -75,13 +80,26 @@ func RunRelHistories(nodeName string, f *RFile, out *bufio.Writer) error {
 		}
 		var target any = tpid
 		var alias gen.Alias
+		var allAliases []gen.Alias
 		switch h.TK {
 		case "name":
 			target = gen.ProcessID{Name: tname, Node: n.Name()}
 		case "alias":
-			if err := gated.Do(n, tpid, func(s *gated.Scripted) error { var e error; alias, e = s.CreateAlias(); return e }); err != nil {
-				return err
+			na := h.NAlias
+			if na < 1 {
+				na = 1
 			}
+			for k := 0; k < na; k++ {
+				var a gen.Alias
+				if err := gated.Do(n, tpid, func(s *gated.Scripted) error { var e error; a, e = s.CreateAlias(); return e }); err != nil {
+					return err
+				}
+				allAliases = append(allAliases, a)
+			}
+			if h.Watch < 0 || h.Watch >= na {
+				h.Watch = 0
+			}
+			alias = allAliases[h.Watch]
 			target = alias
 		case "event":
 			if err := gated.Do(n, tpid, func(s *gated.Scripted) error { _, e := s.RegisterEvent(evname, gen.EventOptions{}); return e }); err != nil {
@@ -115,6 +133,10 @@ func RunRelHistories(nodeName string, f *RFile, out *bufio.Writer) error {
 				return nil
 			})
 			line.Res = append(line.Res, rres(res))
+		}
+		if h.TK == "alias" && h.Del >= 0 && h.Del < len(allAliases) && h.Del != h.Watch {
+			d := allAliases[h.Del]
+			gated.Do(n, tpid, func(s *gated.Scripted) error { return s.DeleteAlias(d) })
 		}
 		switch h.Term {
 		case "kill":
